@@ -1,26 +1,60 @@
 /-
   C09 — Decoding is independent of transport chunking and never accepts a cut stream.
   Property statements only; helper lemmas are in `Proofs/Stream*.lean`.
+  The model (`PydapModel/Stream.lean`) follows the code after the C09 repair (short reads raise).
 -/
 import PydapModel.Stream
 import Proofs.Stream
+import Proofs.StreamFind
+import Proofs.StreamSeq
+import Proofs.StreamDap4
+import Proofs.StreamClient
 namespace Pydap.C09
 open Pydap Pydap.Stream
+
+/-! ## 1. Readers -/
 
 /-- **Reader chunk-independence.** For every way of cutting the same bytes into chunks (empty chunks
     allowed, any buffer content carried over) and every list of read sizes, `StreamReader` returns exactly
     what a `BytesReader` over the concatenation returns: the same results, and — if the data runs out — the
-    error at the same read.  In particular two chunkings of the same bytes are indistinguishable. -/
+    error at the same read. -/
 theorem C09_reader_chunk_independent (cs : List Bytes) (buf : Bytes) (reads : List Nat) :
     srReadMany reads ⟨cs, buf⟩ = brReadMany reads (buf ++ cs.flatten) :=
   readMany_sim reads ⟨cs, buf⟩
 
+/-- two chunkings of the same bytes are indistinguishable through `read` -/
 theorem C09_reader_two_chunkings (cs cs' : List Bytes) (reads : List Nat) (h : cs.flatten = cs'.flatten) :
     srReadMany reads ⟨cs, []⟩ = srReadMany reads ⟨cs', []⟩ := by
   rw [C09_reader_chunk_independent, C09_reader_chunk_independent, h]
 
 example : srReadMany [4, 0, 3, 2] ⟨[[1], [], [2, 3, 4, 5, 6], [7]], []⟩
     = ([[1, 2, 3, 4], [], [5, 6, 7]], some .eof) := by decide
+example : srReadMany [4, 0, 3, 2] ⟨[[1, 2, 3, 4, 5, 6, 7]], []⟩
+    = ([[1, 2, 3, 4], [], [5, 6, 7]], some .eof) := by decide
+
+/-! ## 2. The `Data:` separator -/
+
+/-- **find_pattern_in_string_iter, for every chunking** (splits inside the pattern included): what it
+    returns, followed by what it left in the iterator, is what follows the first occurrence of the pattern
+    in the concatenation; it returns `None` exactly when `afterFirst` does. -/
+theorem C09_find_pattern (p : Bytes) (hp : p ≠ []) (cs : List Bytes) :
+    (findPattern p cs).map (fun x => x.1 ++ x.2.flatten) = afterFirst p cs.flatten :=
+  findPattern_spec p hp cs
+
+/-- … where `afterFirst p b = some s` means `b = pre ++ p ++ s` with the shortest possible `pre`
+    (the leftmost occurrence), and `afterFirst p b = none` means that `p` does not occur in `b`. -/
+theorem C09_find_pattern_first_occurrence (p b : Bytes) :
+    (∀ s, afterFirst p b = some s →
+      ∃ pre, b = pre ++ p ++ s ∧ ∀ pre' s', b = pre' ++ p ++ s' → pre.length ≤ pre'.length) ∧
+    (afterFirst p b = none ↔ ¬ ∃ pre s, b = pre ++ p ++ s) :=
+  ⟨fun s h => afterFirst_some_iff_aux p b s h, afterFirst_none_iff p b⟩
+
+-- the pattern split over three chunks, a second occurrence later on
+example : findPattern dataPattern [[10, 68, 97], [116, 97, 58], [10, 1, 2], [68, 97, 116, 97, 58, 10, 3]]
+    = some ([1, 2], [[68, 97, 116, 97, 58, 10, 3]]) := by decide
+example : findPattern dataPattern [[10, 68, 97], [116, 97, 58], [1, 10]] = none := by decide
+
+/-! ## 3. Decoders -/
 
 /-- **Any decoder that observes its reader only through `read n` is chunk-independent**: run on a
     `StreamReader` over any chunking it returns the value (or the error) it returns on a `BytesReader`
@@ -33,6 +67,25 @@ theorem C09_decode_chunk_independent (d : Dec α) (cs : List Bytes) :
 theorem C09_decode_two_chunkings (d : Dec α) (cs cs' : List Bytes) (h : cs.flatten = cs'.flatten) :
     absSR (d.runSR ⟨cs, []⟩) = absSR (d.runSR ⟨cs', []⟩) := by
   rw [C09_decode_chunk_independent, C09_decode_chunk_independent, h]
+
+/-- **The client's sequence path** (`SequenceProxy.__iter__`: search for `Data:\n`, `StreamReader` over the
+    rest, record-marker loop) is a function of the concatenated response only: the rows decoded from what
+    follows the first `Data:\n`, "no data segment" when there is none. -/
+theorem C09_client_chunk_independent (cols : List Col) (cs : List Bytes) :
+    clientSeq cols cs = clientSpec cols cs.flatten :=
+  clientSeq_eq_spec cols cs
+
+theorem C09_client_two_chunkings (cols : List Col) (cs cs' : List Bytes) (h : cs.flatten = cs'.flatten) :
+    clientSeq cols cs = clientSeq cols cs' := by
+  rw [C09_client_chunk_independent, C09_client_chunk_independent, h]
+
+-- one response, two chunkings (split inside the separator, inside a marker and inside a value)
+example : clientSeq [.fixed 4] [[68, 97], [116, 97, 58], [10, 0x5a, 0, 0], [0, 1, 2, 3, 4, 0xa5, 0, 0], [0]]
+    = .ok [[[1, 2, 3, 4]]] := by decide
+example : clientSeq [.fixed 4] [[68, 97, 116, 97, 58, 10, 0x5a, 0, 0, 0, 1, 2, 3, 4, 0xa5, 0, 0, 0]]
+    = .ok [[[1, 2, 3, 4]]] := by decide
+
+/-! ## 4. Cut streams -/
 
 /-- **Prefix-freeness, for every read-only decoder on a reader that raises on short reads**
     (`StreamReader`, repaired `BytesReader`): on a prefix of an input it decodes, the decoder returns the
@@ -61,5 +114,113 @@ theorem C09_proper_prefix_raises_stream (d : Dec α) (b : Bytes) (a : α) (cs : 
     absSR (d.runSR ⟨cs, []⟩) = .error .eof := by
   rw [C09_decode_chunk_independent]
   exact C09_proper_prefix_raises d b _ a hfull hp hne
+
+/-- **The record-marker loop decodes the wire form of a sequence** (any number of rows, fixed-width and
+    String columns, both the `simple` and the column-by-column path) to exactly its rows, consuming
+    everything … -/
+theorem C09_seq_decodes (cols : List Col) (rows : List Row) (hok : ∀ r ∈ rows, RowOk cols r) :
+    unpackSeqBytes cols (encSeq cols rows) = .ok (rows, []) := by
+  have := seqLoop_enc cols rows ((encSeq cols rows).length + 1) [] hok
+    (by have := encSeq_length cols rows; omega)
+  simpa [unpackSeqBytes] using this
+
+/-- … **and raises on every proper prefix of it** (cut at a record boundary, inside a marker, inside a
+    length word, inside a string or its padding, before the end marker), read through `BytesReader` … -/
+theorem C09_seq_cut_raises (cols : List Col) (rows : List Row) (hok : ∀ r ∈ rows, RowOk cols r)
+    (p : Bytes) (hp : p <+: encSeq cols rows) (hne : p ≠ encSeq cols rows) :
+    unpackSeqBytes cols p = .error .eof :=
+  seqLoop_prefix cols rows p (p.length + 1) hok hp hne (by omega)
+
+/-- … or through `StreamReader`, whatever the chunking. -/
+theorem C09_seq_cut_raises_stream (cols : List Col) (rows : List Row) (hok : ∀ r ∈ rows, RowOk cols r)
+    (cs : List Bytes) (hp : cs.flatten <+: encSeq cols rows) (hne : cs.flatten ≠ encSeq cols rows) :
+    absSR (unpackSeqStream cols ⟨cs, []⟩) = .error .eof := by
+  have h := run_sim (seqLoop cols ((⟨cs, []⟩ : SR).abs.length + 1)) ⟨cs, []⟩
+  have habs : (⟨cs, []⟩ : SR).abs = cs.flatten := by simp [SR.abs]
+  rw [habs] at h
+  simp only [unpackSeqStream, habs]
+  rw [h]
+  exact C09_seq_cut_raises cols rows hok cs.flatten hp hne
+
+/-- **The client never accepts a cut response**: if the complete response carries the wire form of `rows`
+    after its first `Data:\n`, the client decodes exactly `rows` from every chunking of it, and raises
+    (no data segment / end of data) on every chunking of every proper prefix of it. -/
+theorem C09_client_cut_raises (cols : List Col) (rows : List Row) (hok : ∀ r ∈ rows, RowOk cols r)
+    (resp : Bytes) (hresp : afterFirst dataPattern resp = some (encSeq cols rows)) :
+    (∀ cs : List Bytes, cs.flatten = resp → clientSeq cols cs = .ok rows) ∧
+    (∀ cs : List Bytes, cs.flatten <+: resp → cs.flatten ≠ resp →
+      clientSeq cols cs = .error .noData ∨ clientSeq cols cs = .error .eof) := by
+  constructor
+  · intro cs h
+    rw [C09_client_chunk_independent, h]
+    simp [clientSpec, hresp, C09_seq_decodes cols rows hok]
+  · intro cs hp hne
+    rw [C09_client_chunk_independent]
+    rcases afterFirst_prefix dataPattern dataPattern_ne_nil resp _ hresp _ hp with hn | ⟨s', e1, e2, e3⟩
+    · left; simp [clientSpec, hn]
+    · right
+      have hne' : s' ≠ encSeq cols rows := by
+        intro h
+        apply hne
+        apply hp.eq_of_length
+        rw [h] at e3; omega
+      simp [clientSpec, e1, C09_seq_cut_raises cols rows hok s' e2 hne']
+
+-- non-vacuity: a two-row body with a string column, complete and cut inside the last string
+example : unpackSeqBytes [.fixed 4, .str]
+    [0x5a, 0, 0, 0, 0, 0, 0, 1, 0, 0, 0, 2, 97, 98, 0, 0, 0x5a, 0, 0, 0, 0, 0, 0, 2, 0, 0, 0, 1, 99, 0, 0, 0, 0xa5, 0, 0, 0]
+    = .ok ([[[0, 0, 0, 1], [97, 98]], [[0, 0, 0, 2], [99]]], []) := by decide
+example : encSeq [.fixed 4, .str] [[[0, 0, 0, 1], [97, 98]], [[0, 0, 0, 2], [99]]]
+    = [0x5a, 0, 0, 0, 0, 0, 0, 1, 0, 0, 0, 2, 97, 98, 0, 0, 0x5a, 0, 0, 0, 0, 0, 0, 2, 0, 0, 0, 1, 99, 0, 0, 0, 0xa5, 0, 0, 0] := by
+  decide
+example : RowOk [.fixed 4, .str] [[0, 0, 0, 1], [97, 98]] := by simp [RowOk, ValOk, isAscii]
+example : unpackSeqBytes [.fixed 4, .str] [0x5a, 0, 0, 0, 0, 0, 0, 1, 0, 0, 0, 2, 97, 98, 0, 0] = .error .eof := by decide
+example : afterFirst dataPattern ([68, 10, 68, 97, 116, 97, 58, 10] ++ encSeq [.fixed 4] [[[1, 2, 3, 4]]])
+    = some (encSeq [.fixed 4] [[[1, 2, 3, 4]]]) := by decide
+
+/-- Why the repair was needed: on a reader that hands out short reads (`BytesReader` before the repair, a
+    plain file object) the very same loop accepts a body cut at a record boundary, or inside a string, and
+    returns fewer rows / a shorter string. -/
+example : unpackSeqLenient [.fixed 4, .str] [0x5a, 0, 0, 0, 0, 0, 0, 1, 0, 0, 0, 2, 97, 98, 0, 0]
+    = .ok ([[[0, 0, 0, 1], [97, 98]]], []) := by decide
+example : unpackSeqLenient [.fixed 4, .str] [0x5a, 0, 0, 0, 0, 0, 0, 1, 0, 0, 0, 2, 97]
+    = .ok ([[[0, 0, 0, 1], [97]]], []) := by decide
+
+/-! ## 5. DAP4 -/
+
+/-- **`stream2bytearray` reassembles any chunking of a payload** (chunks of any size below 2^24, empty
+    chunks allowed, either byte-order flag, last flag on the final chunk) … -/
+theorem C09_dap4_dechunk (fl : Nat) (chunks : List Bytes) (hne : chunks ≠ []) (hok : ChunksOk fl chunks) :
+    stream2bytearray (encChunks fl chunks) = .ok chunks.flatten :=
+  stream2bytearray_enc fl chunks hne hok
+
+/-- … so two chunkings of the same payload decode to the same buffer … -/
+theorem C09_dap4_two_chunkings (fl fl' : Nat) (c c' : List Bytes) (hne : c ≠ []) (hne' : c' ≠ [])
+    (hok : ChunksOk fl c) (hok' : ChunksOk fl' c') (h : c.flatten = c'.flatten) :
+    stream2bytearray (encChunks fl c) = stream2bytearray (encChunks fl' c') := by
+  rw [C09_dap4_dechunk fl c hne hok, C09_dap4_dechunk fl' c' hne' hok', h]
+
+/-- … **and it raises on every proper prefix** (cut inside a chunk header, inside a chunk, or at a chunk
+    boundary before the last chunk). -/
+theorem C09_dap4_cut_raises (fl : Nat) (chunks : List Bytes) (hok : ChunksOk fl chunks) (p : Bytes)
+    (hp : p <+: encChunks fl chunks) (hne : p ≠ encChunks fl chunks) : stream2bytearray p = .error .eof :=
+  stream2bytearray_prefix fl chunks p hok hp hne
+
+/-- **The whole DAP4 response** (DMR chunk, then data chunks; `safe_dmr_and_data` + `stream2bytearray`):
+    the complete response yields the DMR and the complete buffer, every proper prefix of it raises.
+    (What `unpack_dap4_data` then does with the buffer — offsets, byte order, checksums — is C10's.) -/
+theorem C09_dap4_frame (fl : Nat) (dmr : Bytes) (chunks : List Bytes) (hne : chunks ≠ [])
+    (hok : ChunksOk fl chunks) (hd : dmr.length < 16777216) :
+    unpackFrame (encFrame fl dmr chunks) = .ok (dmr, chunks.flatten) ∧
+    ∀ p, p <+: encFrame fl dmr chunks → p ≠ encFrame fl dmr chunks → unpackFrame p = .error .eof :=
+  ⟨frame_enc fl dmr chunks hne hok hd, fun p hp hn => frame_prefix fl dmr chunks p hok hd hp hn⟩
+
+example : ChunksOk 4 [[7, 8], [], [9]] := by simp [ChunksOk]
+example : stream2bytearray (encChunks 4 [[7, 8], [], [9]]) = .ok [7, 8, 9] := by decide
+example : encChunks 4 [[7, 8], [9]] = [4, 0, 0, 2, 7, 8, 5, 0, 0, 1, 9] := by decide
+example : stream2bytearray [4, 0, 0, 2, 7, 8] = .error .eof := by decide          -- cut at a chunk boundary
+example : stream2bytearray [4, 0, 0, 2, 7, 8, 5, 0] = .error .eof := by decide    -- cut inside a header
+example : unpackFrame (encFrame 4 [60, 62] [[1, 2, 3, 4], [5, 6, 7, 8]]) = .ok ([60, 62], [1, 2, 3, 4, 5, 6, 7, 8]) := by
+  decide
 
 end Pydap.C09
